@@ -52,9 +52,9 @@ CHECKS = {
     "C16": {
         "groups": [
             {"pkg": "Havoc/pkg/service", "entries": ["H_c16_service_close"]},
-            {"pkg": "Havoc/cmd/server", "with": SRV_WITH, "entries": ["H_c16_listener_steps"], "no_native_witness": True, "no_native_replay": True},
+            {"pkg": "Havoc/cmd/server", "with": SRV_WITH, "entries": ["H_c16_listener_steps", "H_c16_listener_edit"], "no_native_witness": True, "no_native_replay": True},
         ],
-        "bounds": "service registry: 1..3 connections, 0..3 agent types and 0..3 listeners with arbitrary ownership, any one connection closing; built-in registry: 1..3 (thorough 1..5) add/remove operations over two names and the SMB and External kinds plus External listeners registered by a service connection (ListenerServiceExc2Add).",
+        "bounds": "service registry: 1..3 connections, 0..3 agent types and 0..3 listeners with arbitrary ownership, any one connection closing; built-in registry: 1..3 (thorough 1..5) add/remove operations over two names and the SMB and External kinds plus External listeners registered by a service connection (ListenerServiceExc2Add), endpoints with and without a leading slash; edit of a running HTTP listener (user agent, 0..2 headers, 0..2 URIs, target this / another / an unknown listener).",
         "outside": "HTTP listener start/stop/edit (gin engine, http.Server), ExC2 endpoints registered by a service connection (not removed on disconnect: see DESIGN.md), failed starts",
         "min_completed": 3,
     },
@@ -225,7 +225,7 @@ LEVELS = {
     "C07": {"text": "Bounded symbolic execution of DownloadAdd/Write/Close and the logr writers with the real path/filepath.Clean and strings code over symbolic path components; every os call is recorded and the containment oracle re-cleans the recorded path; counterexamples are replayed on a real temp loot tree.",
             "note": "os.* = effect recorder with the documented contracts; loot root fixed; names beyond the bound outside."},
     "C16": {"text": "Bounded symbolic execution of service.ClientClose from every small ownership configuration; position of the closing connection and ownership vectors are decided exhaustively through the engine; and of the real ListenerStart/ListenerRemove over sequences of 1..3 add/remove steps with the invariant running = persisted = advertised, unique names, no endpoint outliving its listener.",
-            "note": "Third-party service registry (ClientClose) and the built-in listener registry for SMB and External listeners (ListenerStart/ListenerRemove with the DB and the advertised set as models); HTTP listeners (real sockets) and ListenerEdit are outside."},
+            "note": "Third-party service registry (ClientClose) and the built-in listener registry for SMB and External listeners (ListenerStart/ListenerRemove with the DB and the advertised set as models); HTTP listener sockets are outside (ListenerEdit is executed on listener objects that were not started)."},
     "C12": {"text": "Bounded symbolic execution of the real (*HTTP).request with real net/http header canonicalisation and strings code over symbolic header/URI/user-agent values; the protocol layer is a recorder, so 'reached' is observed exactly.",
             "note": "gin.Context is built directly (no router); parseAgentRequest stubbed as recorder inside gosx."},
     "C15": {"technique_suffix": "; two-thread interleavings of the socket/proxy/forward table operations explored by a bounded scheduler (<= 2 voluntary switches)",
